@@ -59,7 +59,9 @@ mod verif_driver_ops {
                 }
             }
         }
-        for cpb in [0i128, 4310, p(64), i128::MAX] {
+        // precondition of compute_min_utxo (Verus unit cardano_ops): 0 <= coins_per_byte <= u64::MAX (the only caller
+        // passes `pparams.coins_per_utxo_byte as i128`)
+        for cpb in [0i128, 1, 4310, p(32), p(63), p(64) - 1] {
             n += 1;
             if let Err(pn) = quiet(|| compute_min_utxo(tir::Expression::Number(0), &None, cpb)) {
                 witness("c14_ops/compute_min_utxo#arithmetic-overflow", "compute_min_utxo", format!("coins_per_byte={cpb}"), format!("panic:{pn}"), "Ok or Err");
